@@ -472,6 +472,13 @@ pub fn store_req(store: &Store, cmd: &str, a: &[&str]) -> Result<String, String>
                 Err(e) => Ok(db_err_class(&e).to_string()),
             }
         }
+        "KYS" => match store.verif_dump_keys() {
+            Ok(keys) => {
+                let parts: Vec<String> = keys.iter().map(|(t, k)| format!("{}:{}", t, hex(k))).collect();
+                Ok(format!("ok {}", if parts.is_empty() { "_".to_string() } else { parts.join(",") }))
+            }
+            Err(_) => Ok("err".into()),
+        },
         "STA" => match store.stats() {
             Ok(s) => {
                 let i = &s.index_stats;
